@@ -94,10 +94,10 @@ theorem all_entries_perm_invariant (p : α → Bool) {vis₁ vis₂ : List α} (
 theorem any_entry_perm_invariant (p : α → Bool) {vis₁ vis₂ : List α} (h : vis₁.Perm vis₂) :
     anyEntry p vis₁ = anyEntry p vis₂ := h.any_eq
 
-/-- **first failing entry decides** (`compileFunc` defaults, `AsObjects`, `FromGoType`,
-    `MapConverter`, `StructConverter`): the reported error does not depend on the visiting
-    order provided all failing entries fail with the same error (in particular when at most
-    one entry fails). -/
+/-- **first failing entry decides** (`modules/exec.configureCommand`; before their repair also
+    `compileFunc` defaults, `AsObjects`, `FromGoType`, `MapConverter`, `StructConverter`): the
+    reported error does not depend on the visiting order provided all failing entries fail with
+    the same error (in particular when at most one entry fails). -/
 theorem first_failure_perm_invariant (err : α → Option ε) {vis₁ vis₂ : List α} (h : vis₁.Perm vis₂)
     (hsame : ∀ a ∈ vis₁, ∀ b ∈ vis₁, ∀ ea eb, err a = some ea → err b = some eb → ea = eb) :
     firstFailure err vis₁ = firstFailure err vis₂ := by
@@ -135,7 +135,71 @@ theorem first_failure_counterexample : ¬ firstFailure_full := by
   revert this
   decide
 
-/-- `applyOverrides` agrees with an order-independent fold when no entry is invalid … -/
+/-- **conversions of a map at the host boundary** (`AsObjects`, `FromGoType`, `MapConverter.To/From`,
+    `StructConverter.To` since `fix: convert the entries of a map in sorted key order`): for EVERY
+    error function — any number of failing entries, each with its own error — and every two
+    visiting orders of the map the reported error is the same.  The former guard (at most one
+    kind of failure, finding C05-conversion-error-order) is gone. -/
+theorem conversion_perm_invariant (err : String → Option ε) {vis₁ vis₂ : List String}
+    (h : vis₁.Perm vis₂) : convertSorted err vis₁ = convertSorted err vis₂ := by
+  unfold convertSorted
+  rw [sortedKeys_perm_invariant h]
+
+/-- the loops as they were before the repair: the full statement is refuted by the old witness
+    (`s.F({"a": "x", "b": [1]})`: `string given` under one visiting order, `list given` under
+    the other) — on which the repaired loops report `string given` under both -/
+theorem C05_fixed_conversion_error_order :
+    (¬ ∀ (err : String → Option String) (vis₁ vis₂ : List String), vis₁.Perm vis₂ →
+        preFixConvert err vis₁ = preFixConvert err vis₂) ∧
+    (let err := fun k => if k = "a" then some "expected int (string given)" else some "expected int (list given)"
+     preFixConvert err ["a", "b"] ≠ preFixConvert err ["b", "a"] ∧
+     convertSorted err ["a", "b"] = some "expected int (string given)" ∧
+     convertSorted err ["b", "a"] = some "expected int (string given)") := by
+  refine ⟨fun h => ?_, by decide⟩
+  have := h (fun k => if k = "a" then some "s" else some "l") ["a", "b"] ["b", "a"] (List.Perm.swap _ _ _)
+  revert this
+  decide
+
+/-- **`compileFunc` defaults** since `fix: report the first unsupported parameter default in
+    declaration order`: for every parameter list, every defaults map (distinct keys: it is a Go
+    map), every error function and every two visiting orders of the map the reported error is
+    the same — the one of the first parameter, in declaration order, whose default is
+    unsupported.  The former guard (one kind of failure, finding C05-func-defaults-error-order)
+    is gone. -/
+theorem func_defaults_perm_invariant (err : D → Option ε) (params : List String)
+    {vis₁ vis₂ : List (String × D)} (h : vis₁.Perm vis₂) (hd : KeysDistinct vis₁) :
+    funcDefaults err params vis₁ = funcDefaults err params vis₂ := by
+  unfold funcDefaults
+  rw [insert_fold_perm_invariant _ _ h hd]
+
+/-- the loop before the repair is refuted by the old witness `func f(a=[1], b=[2]) {}`; the
+    repaired loop reports `[1]` under both visiting orders -/
+theorem C05_fixed_func_defaults_error_order :
+    (¬ ∀ (err : String → Option String) (params : List String) (vis₁ vis₂ : List (String × String)),
+        vis₁.Perm vis₂ → KeysDistinct vis₁ → preFixFuncDefaults err params vis₁ = preFixFuncDefaults err params vis₂) ∧
+    funcDefaults (fun s => some ("unsupported default value (got " ++ s ++ ")")) ["a", "b"] [("a", "[1]"), ("b", "[2]")]
+      = some "unsupported default value (got [1])" ∧
+    funcDefaults (fun s => some ("unsupported default value (got " ++ s ++ ")")) ["a", "b"] [("b", "[2]"), ("a", "[1]")]
+      = some "unsupported default value (got [1])" := by
+  refine ⟨fun h => ?_, by decide, by decide⟩
+  have := h (fun s => some s) ["a", "b"] [("a", "[1]"), ("b", "[2]")] [("b", "[2]"), ("a", "[1]")]
+    (List.Perm.swap _ _ _) (by simp [KeysDistinct])
+  revert this
+  decide
+
+/-- **`Config.applyOverrides`** since `fix: apply global overrides in sorted order of their
+    names`: for every overrides map (distinct names), ANY number of invalid values among them,
+    and every two visiting orders the resulting globals are the same — the overrides whose names
+    sort before the smallest invalid name are applied.  The former hypothesis of
+    `apply_overrides_partial` (no invalid value, finding C05-overrides-abort-order) is gone. -/
+theorem apply_overrides_perm_invariant {vis₁ vis₂ : List (String × Option V)} (h : vis₁.Perm vis₂)
+    (hd : KeysDistinct vis₁) (m0 : AMap V) :
+    applyOverridesSorted vis₁ m0 = applyOverridesSorted vis₂ m0 := by
+  unfold applyOverridesSorted
+  rw [insert_fold_perm_invariant _ _ h hd, sortedKeys_perm_invariant (h.map (·.1))]
+
+/-- the loop body over the VISITING order (the code before the repair) agrees with an
+    order-independent fold when no entry is invalid … -/
 theorem apply_overrides_partial {vis₁ vis₂ : List (String × Option V)} (h : vis₁.Perm vis₂)
     (hd : KeysDistinct vis₁) (hv : ∀ e ∈ vis₁, e.2.isSome = true) (m0 : AMap V) :
     applyOverrides vis₁ m0 = applyOverrides vis₂ m0 := by
@@ -160,12 +224,30 @@ theorem apply_overrides_partial {vis₁ vis₂ : List (String × Option V)} (h :
   cases vx <;> cases vy <;> simp only
   exact AMap.set_comm s hxy _ _
 
-/-- … and depends on the visiting order as soon as one invalid entry is present: with
-    `math.sqrt` invalid and `math.abs` valid, `abs` is overridden in one order and not in the other -/
+/-- … and depended on the visiting order as soon as one invalid entry is present (the code
+    before the repair): with `math.sqrt` invalid and `math.abs` valid, `abs` is overridden in
+    one order and not in the other -/
 theorem apply_overrides_counterexample :
     applyOverrides [("abs", some 777), ("sqrt", none)] AMap.empty "abs" = some 777 ∧
     applyOverrides [("sqrt", none), ("abs", some 777)] (AMap.empty : AMap Nat) "abs" = none := by
   constructor <;> rfl
+
+/-- finding C05-overrides-abort-order, fixed: on the old witness the repaired loop applies
+    `abs` (it sorts before `sqrt`) under both visiting orders -/
+theorem C05_fixed_overrides_abort_order :
+    applyOverridesSorted [("abs", some 777), ("sqrt", none)] AMap.empty "abs" = some 777 ∧
+    applyOverridesSorted [("sqrt", none), ("abs", some 777)] (AMap.empty : AMap Nat) "abs" = some 777 := by
+  constructor <;> decide
+
+/-- the seven repaired loops no longer appear in the site table as first-failure loops over a
+    map: six are gone (they walk a list), `applyOverrides` only collects the names it sorts, and
+    the new helper `sortedMapKeys` is a collect-then-sort site -/
+theorem C05_fixed_first_failure_sites :
+    preFixFirstFailureSites.all (fun s => !(mapSites.any fun t =>
+      t.1 == s.1 && t.2.1 == s.2.1 && t.2.2.2.2 == s.2.2.2.2)) = true ∧
+    mapSites.any (fun t => t.1 == "risor.Config.applyOverrides" && t.2.2.2.1 && t.2.2.2.2 == SiteClass.sortedAfter) = true ∧
+    mapSites.any (fun t => t.1 == "object.sortedMapKeys" && t.2.2.2.1 && t.2.2.2.2 == SiteClass.sortedAfter) = true := by
+  decide
 
 /-- **result lists the entries in visiting order** (`ast.Map.String`, the emission loop of
     `compileMap`; before their repair also `VirtualOS.Environ` and `MockFS.ReadDir`): two
@@ -1390,6 +1472,80 @@ theorem pickExtensionRaced_counterexample :
     file per module sees it) -/
 example : pickExtensionRaced [1, 0] [".risor", ".rsr"] (fun e => e == ".rsr") = pickExtension [".risor", ".rsr"] (fun e => e == ".rsr") := by
   decide
+
+/-! ## declarations that introduce several names at once (`from m import a, b, c`, …) -/
+
+/-- a slot that has been handed out never moves: the table before a declaration is a prefix
+    of the table after it (all tables, all name lists) -/
+theorem declareAll_prefix (ns : List String) (tab : List String) :
+    ∃ l, declareAll ns tab = tab ++ l := by
+  induction ns generalizing tab with
+  | nil => exact ⟨[], by simp [declareAll]⟩
+  | cons n ns ih =>
+    by_cases hc : n ∈ tab
+    · obtain ⟨l, hl⟩ := ih tab
+      refine ⟨l, ?_⟩
+      have : declareAll (n :: ns) tab = declareAll ns tab := by
+        simp [declareAll, declare, hc]
+      rw [this, hl]
+    · obtain ⟨l, hl⟩ := ih (tab ++ [n])
+      refine ⟨n :: l, ?_⟩
+      have : declareAll (n :: ns) tab = declareAll ns (tab ++ [n]) := by
+        simp [declareAll, declare, hc]
+      rw [this, hl]; simp
+
+/-- **the slots follow the source order**: new, pairwise distinct names are appended to the
+    table in the order in which the statement lists them — for every table and every list -/
+theorem slots_follow_source_order (ns : List String) (tab : List String) (hn : ns.Nodup)
+    (hnew : ∀ n ∈ ns, n ∉ tab) : declareAll ns tab = tab ++ ns := by
+  induction ns generalizing tab with
+  | nil => simp [declareAll]
+  | cons n ns ih =>
+    have hc : n ∉ tab := hnew n (by simp)
+    have h1 : declareAll (n :: ns) tab = declareAll ns (tab ++ [n]) := by
+      simp [declareAll, declare, hc]
+    rw [h1, ih (tab ++ [n]) (List.nodup_cons.1 hn).2]
+    · simp
+    · intro m hm
+      have hmn : m ≠ n := fun e => (List.nodup_cons.1 hn).1 (e ▸ hm)
+      have := hnew m (by simp [hm])
+      simp [this, hmn]
+
+/-- **the slot assignment does not depend on the visiting order of the alias map**: the loop as
+    it is walks the import list, so for all statements, tables and every two annotations of the
+    adversary the table and the operands of the stores are the same -/
+theorem slot_assignment_perm_invariant (vis₁ vis₂ : List Nat) (ims : List (String × String))
+    (tab : List String) : declStmt vis₁ ims tab = declStmt vis₂ ims tab := rfl
+
+/-- the same for a whole sequence of declaring statements of one scope, whatever annotation the
+    adversary attaches to each statement -/
+theorem decl_program_perm_invariant (stmts : List (List Nat × List (String × String)))
+    (vs : List Nat) (tab : List String) :
+    declProgram declStmt stmts tab = declProgram declStmt (stmts.map fun s => (vs, s.2)) tab := by
+  induction stmts generalizing tab with
+  | nil => rfl
+  | cons s rest ih =>
+    obtain ⟨v, ims⟩ := s
+    simp only [declProgram, List.map_cons]
+    rw [slot_assignment_perm_invariant v vs ims tab, ih]
+
+/-- the full statement for the variant that declares the names by ranging over the alias map … -/
+def declStmtMapOrdered_full : Prop :=
+  ∀ (vis₁ vis₂ : List Nat) (ims : List (String × String)) (tab : List String),
+    declStmtMapOrdered vis₁ ims tab = declStmtMapOrdered vis₂ ims tab
+
+/-- … is false: `from m import a, b` gives a the slot 0 under one visiting order and 1 under the other -/
+theorem slot_assignment_map_ordered_counterexample : ¬ declStmtMapOrdered_full := by
+  intro h
+  have := h [0, 1] [1, 0] [("a", "a"), ("b", "b")] []
+  revert this
+  decide
+
+/-- on the visiting order that happens to be the source order the variant agrees with the code -/
+example : declStmtMapOrdered [0, 1, 2] [("a", "a"), ("b", "x"), ("c", "c")] ["g"] =
+    declStmt [] [("a", "a"), ("b", "x"), ("c", "c")] ["g"] := by decide
+
+example : declStmt [] [("sqrt", "s"), ("abs", "abs"), ("sqrt", "r")] ["abs"] = (["abs", "r"], [1, 0, 1]) := by decide
 
 /-! ## non-vacuity -/
 
